@@ -1008,16 +1008,22 @@ func (z *zzC06Srv) deviation(v *zzC06Vec, q zzC06Query, cased bool, want []zzC06
 		}{"case", vc.Outs})
 	}
 
-	for _, extra := range []struct {
-		name      string
-		fwd, errq bool
-	}{{"", false, false}, {"fwd", true, false}, {"err", false, true}, {"fwd+err", true, true}} {
-		for _, st := range sets {
-			if st.name == "" && extra.name == "" {
-				continue
-			}
+	// Every explanation that does not involve the letter case is tried before
+	// one that does.
+	for _, withCase := range []bool{false, true} {
+		for _, extra := range []struct {
+			name      string
+			fwd, errq bool
+		}{{"", false, false}, {"fwd", true, false}, {"err", false, true}, {"fwd+err", true, true}} {
+			for _, st := range sets {
+				if (st.name == "case") != withCase || (st.name == "" && extra.name == "") {
+					continue
+				}
 
-			if z.admits(st.outs, q.h, q.qt, g, extra.fwd, extra.errq) {
+				if !z.admits(st.outs, q.h, q.qt, g, extra.fwd, extra.errq) {
+					continue
+				}
+
 				switch {
 				case st.name == "":
 					return extra.name
